@@ -45,6 +45,31 @@ NOT_APPLICABLE = {}
 
 HOOK_COMMITS = ["45bc492", "e36cf10", "3319613", "69852e4", "f4a53ae", "1c4db3c", "0212cac", "4b47353", "ce43167"]
 
+check("C13", "model_checking",
+      "MPC channels H1->H2 of the real Gateway over the in-memory transport: message width {1,3,4,8,14,32 bytes} x k = 1..5 (6) "
+      "records x active work {2,4,16} x read size {1,5,16,2048 bytes, ...} x total {Specified(k), Indeterminate + close(k)} x every "
+      "send order (all k! for k <= 4 (5)) x every window-respecting receive order (requests of a window outstanding at once, polled "
+      "in every order; or awaited one by one) x receiver polled before/after the sender, on a current-thread runtime so that the "
+      "enumerated poll order is the executed one. Oracle per case: receive(i) returns the message sent for record i; after the k-th "
+      "send receive(k) is end-of-stream and not before (early-close probe: k-1 records sent, every request polled 60 rounds, must "
+      "stay pending); send(k), send(k+1), send(k+5) return TooManyRecords (no panic, no block); the exchange completes within the "
+      "deadline. Isolation: all 6 directed helper pairs x 2 gates x every shard x shard-to-shard channels on the same gates, at once, "
+      "payload = code(channel, record). Schedule arm (config B): sender tasks, receiver tasks, the gateway's spawned stream task and "
+      "the transport under the preemption-bounded DFS scheduler inside an exploration window.",
+      [{"name": "channels", "config": "A", "test": "verif::c13::run", "timeout": {"quick": 900, "thorough": 3600},
+        "require": {"any": {"channel_cases": 10000, "isolation_receives": 500}}}],
+      assumptions=["in-memory transport only (the HTTP transport is outside the anchors)",
+                   "receive requests for record j are only served while the requests for all lower records of the window are outstanding "
+                   "(UnorderedReceiver's documented contract): one-by-one awaiting is enumerated in record order only"],
+      exhaustive=True, engine="E5 domain + E2 sched",
+      technique="bounded exhaustive enumeration of send orders x receive orders x widths x window/read-size configurations executed on "
+                "the real gateway with a deterministic single-threaded executor; preemption-bounded exhaustive schedule exploration "
+                "(CHESS-style) of the same exchange under shuttle",
+      text="Every order of sends and every window-respecting order of receives for up to 5 records is executed on the real gateway "
+           "for six message widths and twelve window/read-size configurations; delivery, end-of-channel, the too-many-records error "
+           "and absence of deadlock are checked in each execution; cross-channel isolation is checked with channel-coded payloads.",
+      note="k <= 5 (6); schedules within preemption bound 2 inside the exploration window.")
+
 check("C14", "model_checking",
       "CircularBuf: BFS to closure over {write,take,close} histories for every capacity<=6 units x write size 1..3 x read size, "
       "lock-step VecDeque model. OrderingSender: every interleaving of 2-3 writer tasks + main (close || stream) with <= k "
